@@ -93,6 +93,34 @@ def run(ctx):
             v = x.commutes_with(y)
             add('majorana_commutes_with', '(Bool.eqb %s (qcomm_zero (mjw0 %s) (mjw0 %s)))' % (cbool(v), coq_mop(x.terms), coq_mop(y.terms)),
                 {'call': 'MajoranaOperator.commutes_with (multi-term)', 'a': repr(x.terms), 'b': repr(y.terms), 'returned': v}, key=(repr(x.terms), repr(y.terms)))
+    # ---- is_hermitian on the other accepted types: InteractionOperator (non-Hermitian and Hermitian tensors, through
+    #      normal ordering), dense and sparse matrices (threshold EQ_TOLERANCE on the largest entry of M - M^dagger)
+    from .c04 import rand_hermitian_iop
+    import scipy.sparse as _sp
+    for i in range(N(40, 300)):
+        n = rng.choice([1, 2, 3])
+        const, one, two = rand_hermitian_iop(rng, n)
+        if i % 2:
+            # break Hermiticity in one entry (or keep it: an entry and its partner changed consistently)
+            p_, q_ = rng.randrange(n), rng.randrange(n); one[p_, q_] += dyc(rng) if p_ != q_ else 1j
+            if rng.random() < 0.3 and p_ != q_: one[q_, p_] = np.conj(one[p_, q_])
+        iop = of.InteractionOperator(const, one, two)
+        fo = of.get_fermion_operator(iop)
+        if exact_terms_ok(fo.terms):
+            v = of.is_hermitian(iop)
+            add('is_hermitian_interaction_operator', '(Bool.eqb %s (fermi_equiv %s (hc_map %s)))' % (cbool(v), coq_fop(fo), coq_fop(fo)),
+                {'call': 'is_hermitian(InteractionOperator)', 'one_body': repr(one.tolist()), 'returned': v}, key=repr(fo.terms))
+        m = rng.choice([2, 3, 4]); M = np.array([[dyc(rng) for _ in range(m)] for _ in range(m)]); M = M + M.conj().T
+        kind = rng.choice(['herm', 'tiny', 'big', 'anti'])
+        if kind == 'tiny': M[0, m - 1] += 1e-10      # below the threshold 1e-8
+        elif kind == 'big': M[0, m - 1] += 1e-6      # above it
+        elif kind == 'anti': M = M + 1j * np.eye(m)
+        want = kind in ('herm', 'tiny')
+        for fmt, X in (('ndarray', M), ('csc', _sp.csc_matrix(M)), ('csr', _sp.csr_matrix(M))):
+            got = bool(of.is_hermitian(X)); ctx.count('is_hermitian_matrix', 1, nontrivial_key=(i, fmt))
+            if got != want:
+                ctx.violation('C02 is_hermitian(%s matrix): returned %r for a matrix whose largest |M - M^dagger| entry is %s the tolerance' % (fmt, got, 'below' if want else 'above'),
+                              {'call': 'is_hermitian(matrix)', 'format': fmt, 'kind': kind, 'matrix': repr(M.tolist())})
     # operators that commute although their terms do not commute pairwise: an operator with itself, with a
     # polynomial in itself, the total number operator with number-conserving hops
     for i in range(N(40, 300)):
